@@ -18,7 +18,8 @@ Record case := mkCase {
   c_match : list (list N);
   c_trig : list bool;
   c_added : list (list bool);
-  c_fired : list (list (list N))
+  c_fired : list (list (list N));
+  c_conc : bool          (* the processor observations come from the concurrent stream *)
 }.
 
 (* short constructors for the cases files *)
@@ -80,7 +81,8 @@ Definition same_len {A B} (a : list A) (b : list B) : bool := Nat.eqb (length a)
    6  IsTriggering differs from the model (not a Spec matter)           (model)
    7  AddEvent skipped/queued differs from the model, fires empty       (model)
    8  model and Spec differ on this case                                (model)
-   9  the model rejects the rule set / malformed case                   (model) *)
+   9  the model rejects the rule set / malformed case                   (model)
+   13, 14 = 3, 4 observed while events of the history were in flight concurrently   (spec) *)
 Definition check_event (rx : N -> value -> bool) (rules : list rule) (rt : root)
            (de : list (path * bool) * event) (om : list N) (ot : bool) : nat :=
   let ev := snd de in
@@ -109,7 +111,7 @@ Fixpoint check_run (rx : N -> value -> bool) (rules : list rule) (p : proc)
   | _, _, _ => 9%nat
   end.
 
-Definition verdict (c : case) : nat :=
+Definition verdict_seq (c : case) : nat :=
   match build (c_rules c) with
   | Ok rt =>
     let rx := rx_of (c_rx c) in
@@ -126,6 +128,10 @@ Definition verdict (c : case) : nat :=
       end
   | _ => 9%nat
   end.
+
+Definition verdict (c : case) : nat :=
+  let v := verdict_seq c in
+  if c_conc c then match v with 3%nat => 13%nat | 4%nat => 14%nat | _ => v end else v.
 
 Definition check_all (cs : list case) : list (N * nat) :=
   filter (fun p => negb (Nat.eqb (snd p) 0)) (map (fun c => (c_id c, verdict c)) cs).
